@@ -20,14 +20,18 @@ PROPERTY = "C03"
 RULE = ("case = (batch of 1-3 library molecules incl. ions / UHF radicals, random distortion, isotropic "
         "stretch 0.85-1.5, optional zero padding) x method x converger {[0,alpha],[1],[2],[3,KSA]} x {diag, SP2 tol} "
         "x scf_eps 1e-4..1e-11 x start density {default, neighbour geometry, +noise, 0.8*P, non-idempotent mixture} "
-        "x iteration cap {default, 3, 10}; non-trivial when the call returned and at least one row was judged "
-        "(flagged converged and checked by (A), or flagged not converged and checked by (B)) or a failpoint fired; "
-        "distinct by SHA-1 of the case")
+        "x iteration cap {default, 3, 10}; plus named hostile cells: anion in a zero-padded SP2 batch, KSA on the smallest "
+        "systems, polar diatomics stretched to 3-26 A, decoupled far fragments (12-50 A), scf_backward=1; non-trivial when "
+        "the call returned and at least one row was judged (flagged converged and checked by (A), or flagged not "
+        "converged and checked by (B)) or a failpoint fired; distinct by SHA-1 of the case")
 ASSUMPTIONS = ["float64 CPU", "sp methods (MNDO/AM1/PM3/PM6_SP); the d-orbital PM6 packers are not driven",
-               "the Fock matrix of clause (A) is rebuilt from the returned density by the repository's own "
-               "hcore+fock/fock_u_batch (and by vlib.ref.nddo when that module is present)",
-               "stopping-rule factors 1/2/15/50 and SP2's clamp [1e-7,1e-3] are the harness' own copy of the documented rule",
-               "start densities carry no weight on padding orbitals (valid inputs only)"]
+               "the Fock matrix of clause (A) is rebuilt from the returned density twice: by the repository's own "
+               "hcore+fock/fock_u_batch and (MNDO/AM1/PM3, <= 9 atom slots) by the independent reference model vlib.ref.nddo",
+               "stopping-rule factors 1/2/15/50 and SP2's clamp [1e-7,1e-3] are the harness' own copy of the documented rule; "
+               "the rms test uses the solver's own normalisation (padded matrix dimension)",
+               "start densities carry no weight on padding orbitals and the same perturbation in both spin channels (valid inputs only)",
+               "a call that raises is a loud, bounded return: counted (calls_raised), not judged here",
+               "UHF per-spin commutator/reproduction constants carry the calibrated factor S_UHF = 5 (see module comment)"]
 REQUIRED_MONITORS = ["rows_checked_converged", "rows_flagged_notconverged", "get_error_calls", "loop_backedges",
                      "sp2_calls", "ksa_returns"]
 CASE_TIMEOUT = 120.0
@@ -78,6 +82,34 @@ def _mk_mol(g, name, scale=None):
             "scale": float(scale if scale is not None else _pick(g, [1.0, 1.0, 1.0, 0.85, 1.2, 1.5]))}
 
 
+# witness reported by the C19 builder: PM3, LiH + F2 + C2H2 on a 30 A triangle (decoupled fragments), Pulay
+FAR_FRAGMENT_WITNESS = {"Z": [9, 9, 6, 6, 3, 1, 1, 1],
+                        "X": [[-5.092407, -28.740897, -2.513107], [-5.494763, -30.103031, -2.517198],
+                              [-0.274411, -16.787954, 24.389361], [-0.947575, -17.76394, 24.635365],
+                              [-0.144012, 0.670692, 0.412629], [0.144012, -0.670692, -0.412629],
+                              [0.275472, -15.936163, 24.121053], [-1.556992, -18.62368, 24.922056]], "charge": 0}
+
+
+def _far_fragments(g, names, R):
+    """neutral closed-shell fragments, each distorted and Haar-rotated, centres R apart on a line / triangle;
+    merged into one species row sorted by atomic number (stable)"""
+    d = g.normal(size=3)
+    d /= np.linalg.norm(d)
+    e = g.normal(size=3)
+    e -= (e @ d) * d
+    e /= np.linalg.norm(e)
+    offs = [np.zeros(3), d, 0.5 * d + (3 ** 0.5 / 2) * e]
+    Z, X = [], []
+    for n, o in zip(names, offs):
+        z, x, _, _ = gen.molecule(n)
+        x = gen.distort(x, g, sigma=0.03)
+        x = (x - x.mean(axis=0)) @ gen.haar(g).T + R * o
+        Z += list(z)
+        X += x.tolist()
+    order = sorted(range(len(Z)), key=lambda i: -Z[i])
+    return {"Z": [int(Z[i]) for i in order], "X": [[float(v) for v in X[i]] for i in order], "charge": 0}
+
+
 KNOWN_SP2_CASE = {"kind": "sp2-padded-anion", "mols": [{"name": "OH-", "gseed": 1, "sigma": 0.0, "scale": 1.0},
                                                      {"name": "CH4", "gseed": 2, "sigma": 0.0, "scale": 1.0}],
                   "pad": 0, "method": "AM1", "conv": [1], "sp2": 1e-5, "eps": 1e-8, "start": "default", "cap": None,
@@ -110,7 +142,8 @@ def gen_cases(tier, seed):
     if tier == "quick":
         grid = [("HF", "PM3", 12.0, [1]), ("HF", "AM1", 5.0, [1]), ("HF", "MNDO", 26.0, [1]), ("HCl", "AM1", 10.0, [1]),
                 ("HCl", "PM3", 4.0, [1]), ("LiF", "MNDO", 6.0, [1]), ("LiH", "MNDO", 5.0, [1]), ("NaCl", "MNDO", 8.0, [1]),
-                ("HF", "PM3", 12.0, [0, 0.3]), ("HF", "PM3", 12.0, [2]), ("HCl", "AM1", 10.0, [0, 0.5]), ("HCl", "AM1", 10.0, [2])]
+                ("HF", "PM3", 12.0, [0, 0.3]), ("HF", "PM3", 12.0, [2]), ("HCl", "AM1", 10.0, [0, 0.5]), ("HCl", "AM1", 10.0, [2]),
+                ("LiH", "MNDO", 18.0, [2]), ("LiH", "PM3", 18.0, [2])]
         grid = [(n, me, d, cv, False) for n, me, d, cv in grid] + [("HF", "AM1", 12.0, [1], True)]
     else:
         grid = []
@@ -128,6 +161,22 @@ def gen_cases(tier, seed):
         mm["sigma"] = 0.0
         cases.append({"kind": "stretched-diatomic", "mols": [mm], "pad": 0, "method": me, "conv": cv, "sp2": None,
                       "eps": float(_pick(g, [1e-6, 1e-8, 1e-8, 1e-10])), "start": "default", "cap": None, "uhf": u, "backward": 0})
+    # decoupled far fragments (and a far-stretched diatomic) under Pulay: DIIS can settle on a charge-transfer determinant
+    # that is not the aufbau density of its own Fock matrix; [1] and [0,alpha] at the same geometry as controls
+    ff = [(dict(FAR_FRAGMENT_WITNESS), "PM3", [2], "LiH+F2+C2H2@30A"), (dict(FAR_FRAGMENT_WITNESS), "PM3", [1], "LiH+F2+C2H2@30A")]
+    nfar = 3 if tier == "quick" else 40
+    fpool = ["LiH", "F2", "C2H2", "H2O", "HF", "NH3", "CH4", "CO", "N2", "LiF", "HCl", "BeH2", "H2", "CH2O", "HCN"]
+    for i in range(nfar):
+        meth = ["PM3", "AM1", "MNDO"][i % 3]
+        nm = [n for n in fpool if gen.available(n, meth)]
+        pick = [nm[int(j)] for j in g.permutation(len(nm))[: int(g.integers(2, 4))]]
+        ex = _far_fragments(g, pick, float(_pick(g, [12.0, 20.0, 30.0, 50.0])))
+        for cv in ([[2]] if tier == "quick" and i else [[2], [1], [0, 0.3]]):
+            ff.append((ex, meth, cv, "+".join(pick)))
+    for ex, meth, cv, label in ff:
+        cases.append({"kind": "far-fragments", "mols": [{"name": label, "explicit": ex, "gseed": 0, "sigma": 0.0, "scale": 1.0}],
+                      "pad": 0, "method": meth, "conv": cv, "sp2": None, "eps": 1e-8, "start": "default", "cap": None,
+                      "uhf": False, "backward": 0})
     # scf_backward=1: reaches the implicit-adjoint fixed-point loops from the same public call
     for name in (["H2O", "CH2O"] if tier == "quick" else ["H2O", "CH2O", "NH3", "HCN", "CH3OH", "C2H4"]):
         cases.append({"kind": "backward", "mols": [_mk_mol(g, name, 1.0)], "pad": 0, "method": "AM1",
@@ -163,11 +212,14 @@ def gen_cases(tier, seed):
 
 # ------------------------------------------------------------------------------------------------------
 def _geometry(m, extra_seed=0, extra_sigma=0.0):
-    Z, X, q, mult = gen.molecule(m["name"])
-    g = np.random.default_rng(m["gseed"])
-    Xd = gen.distort(X, g, sigma=m["sigma"]) if m["sigma"] > 0 else np.array(X, float)
-    c = Xd.mean(axis=0)
-    Xd = (Xd - c) * m["scale"] + c
+    if m.get("explicit"):
+        Z, Xd, q, mult = list(m["explicit"]["Z"]), np.array(m["explicit"]["X"], float), m["explicit"].get("charge", 0), 1
+    else:
+        Z, X, q, mult = gen.molecule(m["name"])
+        g = np.random.default_rng(m["gseed"])
+        Xd = gen.distort(X, g, sigma=m["sigma"]) if m["sigma"] > 0 else np.array(X, float)
+        c = Xd.mean(axis=0)
+        Xd = (Xd - c) * m["scale"] + c
     if extra_sigma > 0:
         Xd = Xd + np.random.default_rng(m["gseed"] + 7919 * extra_seed).normal(0.0, extra_sigma, Xd.shape)
     return Z, Xd, q, mult
@@ -486,8 +538,13 @@ def run_case(case):
         dtr = float(r["trace"])
         lost = int(round(dtr))
         loses_electrons = bool(conv[0] == 1 and lost >= 2 and lost % 2 == 0 and abs(dtr - lost) < 1e-3)
+        # Pulay returned (flagged converged) an idempotent density that commutes with its own Fock matrix but is NOT its
+        # aufbau density: a charge-transfer / excited determinant (O(1) occupation difference, not an eps-scale residual)
+        non_aufbau = bool(conv[0] == 2 and r["idempotency"] <= 1e-12 + K_IDEM * eps_eff * A and r["reproduction"] > 0.1)
         for name, val, tol in bad:
             mech = "adaptive-mix-loses-electrons" if loses_electrons else None
+            if non_aufbau and name in ("reproduction", "reproduction_R1"):
+                mech = "pulay-converged-flag-on-non-selfconsistent-density"
             if conv[0] == 3 and name in ("idempotency", "commutator", "reproduction", "commutator_R1", "reproduction_R1"):
                 # KSA met its own (energy-only) rule, yet the density residual of its last iteration is above
                 # the element-wise density criterion every other solver must meet
